@@ -53,7 +53,10 @@ class Hist:
         m = abs(v)
         ks = 'U' if kind == 'U' else ('I-' if v < 0 else ('I+' if rnd.random() < 0.8 or v else 'I0'))
         if kind == 'I' and v == 0:
-            ks = rnd.choice(('I+', 'I-', 'I0'))
+            ks = rnd.choice(('I+', 'I-', 'I0', 'I0'))
+            if ks == 'I0' and route in ('new', 'slice', 'assign', 'bytes', 'radix') and rnd.random() < 0.7:
+                # a NoSign request with a NON-zero magnitude payload also denotes zero
+                m = rand_digits(rnd, rnd.choice((1, 2, 3)))
         if route == 'lit':
             pad = rnd.choice((0, 0, 8, 16, 40))
             self.step('hset %s %s' % (reg, U(m, pad) if kind == 'U' else (I(v, pad) if v else 'I0')), reg, kind, v, 'C09', 'from_slice with %d redundant hex zeros' % pad, ('ctor', 'lit', kind, pad > 0))
@@ -61,7 +64,7 @@ class Hist:
             ws = words(m, 32) + [0] * rnd.choice((0, 0, 1, 2, 5))
             self.step('hnew %s %s %s %s' % (reg, ks, route, W(ws)), reg, kind, v, 'C09', route + ' with trailing zero words', ('ctor', route, kind, len(ws) % 2))
         elif route == 'bytes':
-            if kind == 'I' and rnd.random() < 0.5:
+            if kind == 'I' and rnd.random() < 0.5 and ks != 'I0':
                 sb = signed_bytes_be(v)
                 ext = (b'\xff' if v < 0 else b'\x00') * rnd.choice((0, 1, 3, 9))
                 be = ext + sb
